@@ -27,9 +27,14 @@ def slotloc(dep, slots, wraps="none", name=None):
             "wraps": wraps, "bind": {"r": "none", "d": "none"}, "name": name}
 
 
-def job(c, m, r, d, targets, ur=0, ud=0, step="s", tag=0):
-    return {"c": c, "m": m, "s": {"r": r, "d": d}, "u": {"r": ur, "d": ud},
-            "targets": [{"dep": t[0], "k": t[1]} for t in targets], "step": step, "tag": tag}
+def job(c, m, r, d, targets, ur=0, ud=0, step="s", tag=0, split=None):
+    """split = {mount: [x, y]}: the requirement on that mount point is declared as TWO storage entries (two keys,
+    like CWL's tmpdir and outdir) whose sizes add up to the per-mount total the model reasons about"""
+    J = {"c": c, "m": m, "s": {"r": r, "d": d}, "u": {"r": ur, "d": ud},
+         "targets": [{"dep": t[0], "k": t[1]} for t in targets], "step": step, "tag": tag, "split": split or {}}
+    for mm, parts in J["split"].items():
+        assert sum(parts) == J["s"][mm] and len(parts) == 2
+    return J
 
 
 def finish(cfg):
@@ -38,6 +43,7 @@ def finish(cfg):
     cfg.setdefault("maxgen", 1)
     cfg.setdefault("maxdup", 0)
     cfg.setdefault("engine", "engine")
+    cfg.setdefault("gate_usage", False)
     for k, l in cfg["locs"].items():
         if not l.get("name"):
             l["name"] = k
@@ -123,6 +129,25 @@ def CONFIGS():
                  "b": job(1, 2, 1, 0, [("D1", 1)], tag=1)},
         "maxdup": 1, "engine": "contract",
     })
+    # two storage keys aliased to ONE mount point (tmpdir + outdir on /): capacity on / lies in [max(entry), sum(entries))
+    # for c alone (never fits L1) and for b after a (fits only if the entries are compared one by one)
+    C["aliased"] = finish({
+        "locs": {"L1": hwloc("D1", 3, 3, 3, 2), "L2": slotloc("D2", 1)},
+        "deps": {"D1": ["L1"], "D2": ["L2"]},
+        "jobs": {"a": job(1, 1, 2, 0, [("D1", 1)], ur=1, tag=0, split={"r": [1, 1]}),
+                 "b": job(1, 1, 2, 1, [("D1", 1)], tag=1, split={"r": [1, 1]}),
+                 "c": job(1, 1, 4, 0, [("D1", 1), ("D2", 1)], tag=2, split={"r": [2, 2]})},
+    })
+    # overlapping releases: the usage measurement of _free_resources is a gated completion (GateUsage), so several
+    # notify_status calls for jobs on ONE hardware location are in flight at once, in every order
+    C["overlap"] = finish({
+        "locs": {"L1": hwloc("D1", 2, 2, 3, 2)},
+        "deps": {"D1": ["L1"]},
+        "jobs": {"a": job(1, 1, 1, 1, [("D1", 1)], ur=1, tag=0),
+                 "b": job(1, 1, 1, 0, [("D1", 1)], tag=1),
+                 "c": job(2, 1, 1, 0, [("D1", 1)], tag=2)},
+        "gate_usage": True,
+    })
     # larger instances (simulation only)
     C["big"] = finish({
         "locs": {"L1": hwloc("D1", 3, 4, 4, 3), "L2": hwloc("D1", 2, 2, 2, 4), "L3": slotloc("D2", 2),
@@ -199,7 +224,8 @@ CONST_NAMES = ["Jobs", "Locs", "Deps", "Mounts", "Root", "LDep", "LName", "LKind
 def render_cfg(cfg, *, next_="Next", spec=None, invariants=(), properties=(), view=True, init="Init", constraint=None):
     out = ["CONSTANTS"]
     out += ["  %s <- c_%s" % (n, n) for n in CONST_NAMES]
-    out += ["  MaxGen = %d" % cfg["maxgen"], "  MaxDup = %d" % cfg["maxdup"], '  Engine = "%s"' % cfg["engine"]]
+    out += ["  MaxGen = %d" % cfg["maxgen"], "  MaxDup = %d" % cfg["maxdup"], '  Engine = "%s"' % cfg["engine"],
+            "  GateUsage = %s" % ("TRUE" if cfg.get("gate_usage") else "FALSE")]
     if spec:
         out.append("SPECIFICATION %s" % spec)
     else:
@@ -238,8 +264,17 @@ def _leaf(j, m):
     return "%s_%s" % (j, m)
 
 
-def _job_path(j, m):
-    return posixpath.join(MOUNT_PATH[m], "w" if m == "r" else "", _leaf(j, m)).replace("//", "/")
+def _job_path(j, m, second=False):
+    return posixpath.join(MOUNT_PATH[m], "w" if m == "r" else "", _leaf(j, m) + ("2" if second else "")).replace("//", "/")
+
+
+def _job_paths(cfg, m):
+    ps = []
+    for j, J in cfg["jobs"].items():
+        ps.append(_job_path(j, m))
+        if m in J.get("split", {}):
+            ps.append(_job_path(j, m, True))
+    return ps
 
 
 def _bind_path(cfg, outer, m):
@@ -249,14 +284,14 @@ def _bind_path(cfg, outer, m):
 
 def _registered_paths(cfg, loc_id, m):
     """paths known to live under mount m of location loc_id: the job directories and the bind sources of wrappers"""
-    ps = {_job_path(j, m) for j in cfg["jobs"]}
+    ps = set(_job_paths(cfg, m))
     for o, l in cfg["locs"].items():
         if l["wraps"] == loc_id and l["kind"] == "hw":
             for om, im in l["bind"].items():
                 if im == m:
                     ps.add(_bind_path(cfg, o, om))
-                    for j in cfg["jobs"]:      # the job directories seen through the bind (bind_mount_point rebases them)
-                        ps.add(posixpath.join(_bind_path(cfg, o, om), posixpath.relpath(_job_path(j, om), MOUNT_PATH[om])))
+                    for jp in _job_paths(cfg, om):      # the job directories seen through the bind (bind_mount_point rebases them)
+                        ps.add(posixpath.join(_bind_path(cfg, o, om), posixpath.relpath(jp, MOUNT_PATH[om])))
     return ps
 
 
@@ -278,6 +313,9 @@ class Sut:
         self.gates = Gates()
         self.gated = gated
         self.holder = None           # (job id, target index) of the task parked in get_available_locations
+        self.usage_passed = {}       # job -> False while the usage measurement of its current release is to be gated
+        self.usage_parked = {}       # job -> number of run() calls parked
+        self.max_usage_parked = 0    # max number of jobs whose measurements were parked at the same time
         self.errors = []             # exceptions raised by calls into the scheduler
         self.calls = []              # (kind, job, arg, asyncio task)
         sut = self
@@ -322,8 +360,16 @@ class Sut:
                 # the `find ... | awk` of remotepath._size: answer with the configured usage of the quoted paths
                 import re
                 total = 0
-                for p in re.findall(r'"([^"]+)"', " ".join(command)):
-                    total += usage.get(posixpath.basename(p), 0) * 2 ** 20
+                leaves = [posixpath.basename(p) for p in re.findall(r'"([^"]+)"', " ".join(command))]
+                jid = leaves[0].split("_")[0] if leaves else None
+                if sut.gated and cfg.get("gate_usage") and jid in cfg["jobs"] and not sut.usage_passed.get(jid, True):
+                    # the measurement of a releasing job is a completion the driver decides (UsageDone)
+                    sut.usage_parked[jid] = sut.usage_parked.get(jid, 0) + 1
+                    sut.max_usage_parked = max(sut.max_usage_parked, sum(1 for v in sut.usage_parked.values() if v > 0))
+                    await sut.gates.wait("use:" + jid)
+                    sut.usage_parked[jid] -= 1
+                for leaf in leaves:
+                    total += usage.get(leaf, 0) * 2 ** 20
                 return (str(total), 0) if capture_output else None
 
             async def copy_local_to_remote(self, *a, **k): raise NotImplementedError
@@ -379,9 +425,15 @@ class Sut:
 
             def eval(self, job):
                 J = cfg["jobs"][self.jid]
-                return Hardware(cores=float(J["c"]), memory=float(J["m"]),
-                                storage={"k_" + m: Storage("/", float(J["s"][m]), {_job_path(self.jid, m)})
-                                         for m in cfg["mounts"]})
+                storage = {}
+                for m in cfg["mounts"]:
+                    parts = J.get("split", {}).get(m)
+                    if parts:
+                        storage["k_" + m] = Storage("/", float(parts[0]), {_job_path(self.jid, m)})
+                        storage["k2_" + m] = Storage("/", float(parts[1]), {_job_path(self.jid, m, True)})
+                    else:
+                        storage["k_" + m] = Storage("/", float(J["s"][m]), {_job_path(self.jid, m)})
+                return Hardware(cores=float(J["c"]), memory=float(J["m"]), storage=storage)
 
         self.depcfg = {d: DeploymentConfig(name=d, type="fake", config={}, workdir="/w") for d in cfg["deps"]}
         self.jobs, self.targets, self.bindings, self.reqs = {}, {}, {}, {}
@@ -405,7 +457,15 @@ class Sut:
             t = asyncio.create_task(self.scheduler.schedule(self.jobs[j], self.bindings[j], self.reqs[j]))
             self.sched_tasks[(j, self.gen[j])] = t
             self.calls.append(("schedule", j, self.gen[j], t))
+        elif name == "UsageDone":
+            self.usage_passed[j] = True
+            n = 0
+            while self.gates.open("use:" + j):
+                n += 1
+            if n == 0:
+                self.errors.append(("no-parked-measurement", "UsageDone", None))
         elif name == "Notify":
+            self.usage_passed[j] = False
             t = asyncio.create_task(self.scheduler.notify_status(self.jobs[j].name, self.Status[s]))
             self.calls.append(("notify", j, s, t))
         elif name == "EvalDone":
@@ -461,6 +521,7 @@ class Sut:
                         for g in range(1, cfg["maxgen"] + 1)] for j in self.jobs}
         pend_notify = sorted((jj, arg) for kind, jj, arg, t in self.calls if kind == "notify" and not t.done())
         return {"alloc": alloc, "res": res, "lj": lj, "returned": returned,
+                "measuring": sorted(jj for jj, v in self.usage_parked.items() if v > 0),
                 "holder": list(self.holder) if self.holder and self.gates.is_parked("gal") else None,
                 "pending_notify": [list(x) for x in pend_notify]}
 
@@ -471,14 +532,17 @@ def expected_projection(cfg, st):
     res = {n: {"c": h["c"], "m": h["m"], "s": dict(h["s"])} for n, h in st["res"].items()}
     lj = {k: list(v) for k, v in st["lj"].items()}
     returned = {j: [bool(x) for x in st["sched"][j]] for j in st["sched"]}
-    holder = [st["lock"][1], st["lock"][3]] if st["lock"] else None
+    lock = st["lock"]
+    holder = [lock[1], lock[3]] if lock and lock[0] == "t" else None
+    measuring = [lock[1]] if lock and lock[0] == "n" else []
     pend = sorted([j, s] for j, s in st["npend"].items() if s != "none")
-    return {"alloc": alloc, "res": res, "lj": lj, "returned": returned, "holder": holder, "pending_notify": pend}
+    return {"alloc": alloc, "res": res, "lj": lj, "returned": returned, "holder": holder, "measuring": measuring,
+            "pending_notify": pend}
 
 
 def diff_projection(got, exp):
     """first differing field (path, got, expected) or None; numbers compared exactly (all values are small integers)"""
-    for top in ("alloc", "res", "lj", "returned", "holder", "pending_notify"):
+    for top in ("alloc", "res", "lj", "returned", "holder", "measuring", "pending_notify"):
         g, e = got[top], exp[top]
         if isinstance(e, dict):
             for k in sorted(set(e) | set(g)):
@@ -652,6 +716,7 @@ async def _replay(cfg, steps, prop, report):
 async def _replay_on(sut, cfg, steps, prop, report):
     n = 0
     prefix = []
+    diverged = False       # after a conformance difference the behaviour is still driven to its end, oracles only
     for a, exp_st in steps:
         before = sut.project()
         try:
@@ -662,6 +727,8 @@ async def _replay_on(sut, cfg, steps, prop, report):
         prefix.append(a)
         got = sut.project()
         got["_gen"] = dict(sut.gen)
+        if diverged:
+            sut.errors = [e for e in sut.errors if e[0] not in ("no-parked-task", "no-parked-measurement")]
         if sut.errors:
             kind, jj, msg = sut.errors[0]
             report("exception:%s:%s:%s" % (kind, str(msg).split(":")[0], config_class(cfg)),
@@ -673,6 +740,8 @@ async def _replay_on(sut, cfg, steps, prop, report):
                 report(sig, dict(det, config=cfg["id"], actions=list(prefix)), "active jobs hold more than the capacity of %s" % det.get("location"))
         if prop == "C11":
             for sig, det in oracle_c11(cfg, got):
+                if sut.max_usage_parked >= 2:       # releases of several jobs were measuring at the same time
+                    sig += ":overlapping-releases"
                 report(sig, dict(det, config=cfg["id"], actions=list(prefix)), "no job is fireable/running but resources stay reserved on %s" % det.get("location_name"))
             if a["name"] == "Notify" and before["holder"] is None and before["alloc"][a["j"]]["status"] == a["s"]:
                 for f in ("alloc", "res", "lj"):
@@ -683,14 +752,14 @@ async def _replay_on(sut, cfg, steps, prop, report):
             for sig, det in oracle_c12(cfg, got):
                 report(sig, dict(det, config=cfg["id"], actions=list(prefix)), "request of job %s waits although target %s has free capacity" % (det["job"], det["target"]))
         # conformance with the model state
-        if exp_st is not None:
+        if exp_st is not None and not diverged:
             d = diff_projection(got, expected_projection(cfg, exp_st))
             if d is not None:
                 field = d[0].split(".")[0]
                 report("conformance:%s:%s:%s" % (field, a["name"], config_class(cfg)),
                        {"config": cfg["id"], "actions": list(prefix), "field": d[0], "got": d[1], "model": d[2]},
                        "after %s the real scheduler's %s = %r, the model says %r" % (a, d[0], d[1], d[2]))
-                return n
+                diverged = True
     return n
 
 
@@ -789,8 +858,8 @@ def _cex_steps(trace):
 
 def run_property(ctx, prop):
     C = CONFIGS()
-    replayed = ctx.pick(["basic", "stacked", "replicas", "rollback", "retry", "cancel"],
-                        ["basic", "storage", "stacked", "replicas", "rollback", "retry", "cancel", "multi", "hostile"])
+    replayed = ctx.pick(["basic", "stacked", "replicas", "rollback", "retry", "cancel", "aliased", "overlap"],
+                        ["basic", "storage", "stacked", "replicas", "rollback", "retry", "cancel", "aliased", "overlap", "multi", "hostile"])
     mc_only = ctx.pick(["hostile"], [])
     invs = PROP_INVARIANTS[prop]
     props = ["DupIsNoop"] if prop == "C11" else []
@@ -851,7 +920,7 @@ def run_property(ctx, prop):
             ctx.count("model_invariant_violated:%s:%s" % (name, ",".join(sorted(set(r.violated)))))
         trs = [x for x in r.printed_json() if isinstance(x, dict) and "a" in x and "f" in x]
         ctx.require(len(trs) >= r.generated - 1 and len(trs) > 50, "emission incomplete on %s: %d lines, %d transitions" % (name, len(trs), r.generated))
-        for an in ACTIONS:
+        for an in ACTIONS + (["UsageDone"] if cfg.get("gate_usage") else []):
             ctx.require(any(t["a"]["name"] == an for t in trs), "vacuous model run on %s: action %s never taken" % (name, an))
         ctx.count("waits_in_model:%s" % name, sum(1 for t in trs if len(t["t"]["condq"]) > len(t["f"]["condq"])))
         ctx.count("wakeups_in_model:%s" % name, sum(1 for t in trs if t["f"]["condq"] and not t["t"]["condq"]))
